@@ -62,7 +62,7 @@ def snap(o, depth=0, seen=None):
                 vals.append(_h(o(t).data.to_array()))
             except Exception as e:          # noqa
                 vals.append(("raises", type(e).__name__))
-        return ("QobjEvo", repr(o.dims), o.num_elements, tuple(vals))
+        return ("QobjEvo", repr(o.dims), o.num_elements, repr(o), tuple(vals))
     if isinstance(o, Coefficient):
         vals = []
         for t in PROBE_T:
@@ -267,6 +267,7 @@ def qobj_ops(T, fmts):
         for fb in fmts:
             H0, H1, c, psi, e = system(fa)
             B = to_fmt(qutip.sigmay() + 0.5 * qutip.sigmap(), fb)
+            Bt = to_fmt(qutip.sigmay() + 0.25j * qutip.sigmap() + 0.1 * qutip.sigmaz(), fb).trans()
             ket = to_fmt(psi, fb if fb != "dia" else "dense")
             dm = to_fmt(qutip.ket2dm(psi), fb)
             ops = {
@@ -290,9 +291,15 @@ def qobj_ops(T, fmts):
                                        qutip.data.column_stack(d["dm"].data), qutip.data.reshape(d["a"].data, 1, 4), qutip.data.transpose(d["a"].data),
                                        qutip.data.expect(d["a"].data, d["ket"].data) if d["ket"].shape[1] == 1 else 0, qutip.data.trace(d["a"].data)),
                 "eq": lambda d: (d["a"] == d["b"], d["a"] == d["a"].copy()),
+                # operands that are not Hermitian (LAPACK's general drivers), also as the transposed view of a stored matrix
+                "eig_general": lambda d: (d["b"].eigenenergies(), d["b"].eigenstates()[0], d["bt"].eigenenergies(), d["bt"].eigenstates()[0],
+                                          qutip.data.eigs(d["b"].data, False, False) if type(d["b"].data).__name__ != "Dia" else 0),
+                "functions_general": lambda d: (d["b"].expm(), d["b"].inv(), d["b"].sqrtm(), d["b"].norm("tr"), d["b"].norm("max"), d["bt"].expm(), d["bt"].inv(),
+                                                d["b"].logm(), d["b"].cosm(), d["b"].sinm(), d["b"].unit(), d["b"].tidyup(1e-14) if False else d["b"].copy().tidyup(1e-14)),
+                "views": lambda d: (d["bt"] + d["a"], d["bt"] @ d["a"], d["bt"].dag(), d["bt"].tr(), d["bt"].full(), d["bt"].data_as("ndarray") if type(d["bt"].data).__name__ == "Dense" else 0),
             }
             for nm, fn in ops.items():
-                T.check(f"Qobj.{nm}:{fa}/{fb}", {"a": H0, "b": B, "ket": ket, "dm": dm}, fn, detail={"fa": fa, "fb": fb})
+                T.check(f"Qobj.{nm}:{fa}/{fb}", {"a": H0, "b": B, "bt": Bt, "ket": ket, "dm": dm}, fn, detail={"fa": fa, "fb": fb})
 
 
 def qobjevo_ops(T, fmts):
@@ -344,6 +351,43 @@ def _args_copy(d):
     return q(0.4)
 
 
+def f_amp(t, A):
+    return A
+
+
+def feedback_ops(T):
+    """operators whose arguments are fed back by the solver: using them once with a plain value leaves them as they were"""
+    import qutip
+    H0, H1, c, psi, e = system("csr")
+    tl = np.linspace(0, 1.0, 5)
+    kinds = {"se": (qutip.SESolver, lambda: qutip.SESolver.ExpectFeedback(qutip.sigmaz(), default=0.5)),
+             "me": (qutip.MESolver, lambda: qutip.MESolver.ExpectFeedback(qutip.sigmaz(), default=0.5)),
+             "state": (qutip.MESolver, lambda: qutip.MESolver.StateFeedback(default=qutip.ket2dm(psi)))}
+    for kn, (cls, fb) in kinds.items():
+        if kn == "state":
+            H = qutip.QobjEvo([H0, [H1, lambda t, A: np.real(A.tr()) if hasattr(A, "tr") else 1.0]], args={"A": fb()})
+            plain = {"A": qutip.ket2dm(psi)}
+        else:
+            H = qutip.QobjEvo([H0, [H1, f_amp]], args={"A": fb()})
+            plain = {"A": 0.25}
+        st = psi if cls is qutip.SESolver else qutip.ket2dm(psi)
+        inputs = {"H": H, "plain": plain, "st": st, "tlist": tl, "e_ops": list(e)}
+        T.check(f"feedback-call:{kn}", inputs, lambda d: (d["H"](0.3, **d["plain"]), d["H"](0.3, d["plain"]), qutip.QobjEvo(d["H"], args=d["plain"])(0.3)), detail={"kind": kn})
+        T.check(f"feedback-copy-arguments:{kn}", inputs, lambda d: _fb_copy(d), detail={"kind": kn})
+        T.check(f"feedback-solver:{kn}", inputs, lambda d: (cls(d["H"]).run(d["st"], d["tlist"], e_ops=d["e_ops"]).expect,
+                                                          cls(d["H"]).run(d["st"], d["tlist"], e_ops=d["e_ops"], args=d["plain"]).expect,
+                                                          cls(d["H"]).run(d["st"], d["tlist"], e_ops=d["e_ops"]).expect), detail={"kind": kn})
+        if kn != "state":
+            fn = qutip.sesolve if cls is qutip.SESolver else qutip.mesolve
+            T.check(f"feedback-function:{kn}", inputs, lambda d: fn(d["H"], d["st"], d["tlist"], e_ops=d["e_ops"], args=d["plain"]).expect, detail={"kind": kn})
+
+
+def _fb_copy(d):
+    q = d["H"].copy()
+    q.arguments(d["plain"])
+    return q(0.3)
+
+
 def coefficient_ops(T):
     import qutip
     tl = np.linspace(0, 1.2, 7)
@@ -385,7 +429,7 @@ def solver_ops(T, tier, fmts):
         T.check(f"krylovsolve-options:{fmt}", {"H": H0, "psi": psi, "tlist": np.linspace(0, 1.2, 7), "options": opts, "e_ops": [e[0]]},
                 lambda d: qutip.krylovsolve(d["H"], d["psi"], d["tlist"], 2, e_ops=d["e_ops"], options=d["options"]), targets=("krylovsolve",), detail={"fmt": fmt})
         # ---- mesolve / MESolver: H forms x c_op forms x state forms, Liouvillian forms
-        c_forms = {"qobj": lambda: list(c), "single": lambda: c[0], "qobjevo": lambda: [qutip.QobjEvo([c[0], f_sin], args={"w": 0.5}), c[1]],
+        c_forms = {"qobj": lambda: list(c), "none": lambda: [], "single": lambda: c[0], "qobjevo": lambda: [qutip.QobjEvo([c[0], f_sin], args={"w": 0.5}), c[1]],
                    "super": lambda: [qutip.lindblad_dissipator(c[0]), c[1]], "super_evo": lambda: [qutip.QobjEvo([qutip.lindblad_dissipator(c[0]), f_sin], args={"w": 0.5})]}
         methods = ["adams", "bdf", "dop853", "vern7", "diag"] if tier == "thorough" else ["adams", "vern7"]
         for sup in (False, True):
@@ -457,6 +501,15 @@ def solver_ops(T, tier, fmts):
                             T.check(f"{which}solve:{fmt}/{method}/sub{nsub}/{sname}/{'het' if het else 'hom'}", inputs, fn,
                                     targets=("smesolve" if which == "sme" else "ssesolve", "StochasticSolver_init", "_StochasticRHS_init"),
                                     detail={"fmt": fmt, "method": method, "substeps": nsub, "state": sname})
+        # ---- stochastic solver objects reused with new arguments
+        for which, cls in (("sme", qutip.SMESolver), ("sse", qutip.SSESolver)):
+            for fname in ("qobjevo_func", "qobjevo_dictfunc"):
+                for method in (("euler", "platen", "rouchon") if tier == "thorough" else (str(rng.choice(["euler", "platen", "rouchon"])),)):
+                    st = qutip.ket2dm(psi) if which == "sme" else psi
+                    inputs = {"H": h_forms(H0, H1)[fname](), "sc_ops": [qutip.QobjEvo([c[0], f_sin], args={"w": 0.5})], "psi": st, "tlist": np.linspace(0, 0.6, 4), "e_ops": list(e),
+                              "options": {"method": method, "dt": 0.05, "store_states": True, "progress_bar": "", "keep_runs_results": True}, "args": {"w": 0.9}}
+                    T.check(f"{which.upper()}Solver:{fmt}/{fname}/{method}", inputs,
+                            lambda d: _mc_cycle(cls, (d["H"], d["sc_ops"], False), d), targets=("StochasticSolver_init", "_StochasticRHS_init"), detail={"fmt": fmt, "H": fname, "method": method})
         # ---- propagator, steadystate, correlation, floquet
         inputs = {"H": h_forms(H0, H1)["qobjevo_func"](), "c_ops": list(c), "tlist": np.linspace(0, 1.2, 4), "options": {"atol": 1e-9}, "args": {"w": 0.6}, "psi": psi, "e_ops": list(e)}
         T.check(f"propagator:{fmt}", inputs, lambda d: (qutip.propagator(d["H"], 0.7, d["c_ops"], args=d["args"], options=d["options"]), qutip.propagator(d["H"], d["tlist"], options=d["options"])), detail={"fmt": fmt})
@@ -558,8 +611,9 @@ def run(tier, seed, replay):
     rng = np.random.default_rng(seed)
     T = Table(rep, rng)
     fmts = FORMATS if tier == "thorough" else ["dense", "csr"] + [str(rng.choice(["dense_f", "dia"]))]
-    qobj_ops(T, FORMATS if tier == "thorough" else fmts)
+    qobj_ops(T, FORMATS)
     qobjevo_ops(T, fmts)
+    feedback_ops(T)
     coefficient_ops(T)
     solver_ops(T, tier, fmts)
     rep.case({"formats": fmts}, True)
